@@ -181,6 +181,74 @@ pub fn run(args: &Args, rep: &mut Report) {
             }
         }
     }
+    // exhaustive calendar sweeps: the selectors whose arithmetic depends on the year are compared
+    // with the model on the days around their boundaries in EVERY year 1900..9999 (a slip that
+    // matters in three years out of 8100 cannot hide from this; it would from random dates)
+    {
+        let sweeps: [(&str, u8); 9] = [
+            ("easter", 0), ("easter -2 days-easter +1 day", 0), ("Feb 29", 1), ("Feb 28-Mar 1 12:00-36:00", 1),
+            ("week 53", 2), ("week 01,52 Mo,Su", 2), ("week 02-53/3 We", 2),
+            ("Mo[-1],Tu[-1],We[-1],Th[-1],Fr[-1],Sa[-1],Su[-1],Mo[5],Su[5],Fr[4]", 3), ("Th[1],Th[-2] +3 days,Su[-1] -1 day", 3),
+        ];
+        for (text, kind) in sweeps {
+            let Ok(ast) = lib_parse(text) else { continue };
+            let Ok(Ok(oh)) = guarded(|| OpeningHours::parse(text)) else { continue };
+            let mut days: Vec<NaiveDate> = Vec::new();
+            for y in 1900..=9999i32 {
+                if (y as u64) % args.of.max(1) != args.worker {
+                    continue;
+                }
+                match kind {
+                    0 => {
+                        let e = model::easter(y);
+                        for k in [-8i64, -7, -6, -3, -2, -1, 0, 1, 2, 6, 7, 8] {
+                            days.push(e + Duration::days(k));
+                        }
+                        // the whole window in which Easter can fall
+                        let mut d = dates::ymd(y, 3, 20);
+                        while d <= dates::ymd(y, 4, 27) {
+                            days.push(d);
+                            d = d.succ_opt().unwrap();
+                        }
+                    }
+                    1 => {
+                        for (m, dd) in [(2u32, 27u32), (2, 28), (3, 1), (3, 2)] {
+                            days.push(dates::ymd(y, m, dd));
+                        }
+                        days.extend(NaiveDate::from_ymd_opt(y, 2, 29));
+                    }
+                    2 => {
+                        let mut d = dates::ymd(y, 12, 18);
+                        for _ in 0..28 {
+                            if dates::in_range(d) {
+                                days.push(d);
+                            }
+                            d = d.succ_opt().unwrap();
+                        }
+                    }
+                    _ => {
+                        // first and last eight days of four months per year (rotating), all of February
+                        for m in [2u32, 1 + (y as u32 % 12), 1 + ((y as u32 + 5) % 12), 12] {
+                            let n = model::days_in_month(y, m);
+                            for dd in (1..=8).chain(n - 8..=n) {
+                                days.push(dates::ymd(y, m, dd));
+                            }
+                        }
+                    }
+                }
+            }
+            days.retain(|d| dates::in_range(*d) && *d != dates::min_day());
+            days.sort();
+            days.dedup();
+            rep.evaluations += 1;
+            rep.add("calendar_sweep_days", days.len() as u64);
+            match compare(&ast, &oh, &HolSpec::None, &days, false, None) {
+                Err(a) => rep.count(&format!("abstained.{}", a.0.replace(' ', "_"))),
+                Ok(None) => rep.count("calendar_sweeps_passed"),
+                Ok(Some(mm)) => rep.violation("schedule_differs_from_semantics", format!("{text:?} [none] (exhaustive sweep over every year 1900..9999): {}", mm.what), json!({"expr": text, "holidays": "none", "day": mm.day.to_string()}), None),
+            }
+        }
+    }
     // real-world shapes: sample file and test-source literals, model fed with the parsed AST
     let corpus = corpus();
     rep.add("corpus_expressions_available", corpus.len() as u64);
